@@ -1,5 +1,7 @@
 /-
-C15 (A) — helper lemmas, part 3: `Router::processActions` on a well-formed queue raises no fault.
+C15 (A) — helper lemmas, part 3: `Router::processActions` on a well-formed queue raises no fault,
+whether transactions are on or off (since /repo 448bcee nothing re-enters `processTransaction`, so a
+queue left over from `setTransactionUse(false)` is simply processed by the next mutator).
 -/
 import AdaptaVerif.Lemmas.LifecycleQueue
 namespace AdaptaVerif.Lemmas.Lifecycle
@@ -16,21 +18,6 @@ def RS (a b : Action) : Prop :=
 
 def CActsOk (HC HO : Id → Prop) (acts : List Action) : Prop :=
   ∀ a ∈ acts, a.type = .connChange → HC a.obj ∧ ∀ u ∈ a.ends, ∀ an, u.2 = some an → HO an.obj
-
-/-- with transactions off, processing the entries `rest` in state `t` does not re-enter -/
-def RSafe (t : St) (rest : List Action) : Prop :=
-  ∀ b ∈ rest, (isRemove b.type = true → t.pinsOf b.obj = []) ∧
-    (isMove b.type = true → ∀ c ∈ t.conns, c.attachedTo b.obj = false)
-
-theorem followers_eq_nil {cs : List Conn} {o : Id} (h : ∀ c ∈ cs, c.attachedTo o = false) :
-    followers cs o = [] := by
-  unfold followers
-  rw [List.flatMap_eq_nil_iff]
-  intro c hc
-  have := h c hc
-  simp only [Conn.attachedTo, Bool.or_eq_false_iff] at this
-  obtain ⟨h1, h2⟩ := this
-  cases hs : c.src <;> cases hd : c.dst <;> simp_all [endOn]
 
 theorem mem_followers {cs : List Conn} {o : Id} {f : Id × Bool × Anchor} (h : f ∈ followers cs o) :
     f.1 ∈ cs.map (·.id) ∧ f.2.2.obj = o := by
@@ -60,20 +47,6 @@ theorem mem_followers {cs : List Conn} {o : Id} {f : Id × Bool × Anchor} (h : 
         exact ⟨List.mem_map.2 ⟨c, hc, rfl⟩, by simpa using hx⟩
       · cases hf
 
-theorem endOn_detach {e : End} {x o : Id} (h : endOn e o = false) : endOn (detachEnd e x) o = false := by
-  unfold detachEnd; split
-  · rfl
-  · exact h
-
-theorem attachedTo_detachAnchor {cs : List Conn} {o : Id} (x : Id) (h : ∀ c ∈ cs, c.attachedTo o = false) :
-    ∀ c ∈ detachAnchor cs x, c.attachedTo o = false := by
-  intro c hc
-  simp only [detachAnchor, List.mem_map] at hc
-  obtain ⟨c0, hc0, rfl⟩ := hc
-  have := h c0 hc0
-  simp only [Conn.attachedTo, Bool.or_eq_false_iff] at this ⊢
-  exact ⟨endOn_detach this.1, endOn_detach this.2⟩
-
 theorem cActsOk_modifyConn {HC HO : Id → Prop} {acts : List Action} (h : CActsOk HC HO acts) {c : Id}
     (d : Bool) {e : EndSpec} (pm : Bool) (hc : HC c) (he : ∀ an, e = some an → HO an.obj) :
     CActsOk HC HO (modifyConn acts c d e pm) := by
@@ -102,33 +75,22 @@ theorem cActsOk_modifyConn {HC HO : Id → Prop} {acts : List Action} (h : CActs
       subst hu; exact he an han
 
 theorem procRemoveMove_remove {t : St} {a : Action} (hr : isRemove a.type = true)
-    (ho : t.hasObst a.obj = true) (hsafe : t.consolidate = false → t.pinsOf a.obj = []) :
+    (ho : t.hasObst a.obj = true) :
     procRemoveMove t a = { t.freeObstacle a.obj with
       actions := (t.actions ++ List.map (fun p : Pin => ({ type := .pinChange, obj := p.id } : Action))
         (t.pinsOf a.obj)) } := by
-  have hcond : (!t.consolidate && !(t.pinsOf a.obj).isEmpty) = false := by
-    cases hc : t.consolidate
-    · simp [hsafe hc]
-    · simp
   unfold procRemoveMove
   rw [if_pos hr, if_neg (by simp [ho])]
-  simp only [hcond, Bool.false_eq_true, ↓reduceIte]
 
 theorem procRemoveMove_move {t : St} {a : Action} (hnr : isRemove a.type = false)
-    (hm : isMove a.type = true) (ho : t.hasObst a.obj = true)
-    (hsafe : t.consolidate = false → followers t.conns a.obj = []) :
+    (hm : isMove a.type = true) (ho : t.hasObst a.obj = true) :
     procRemoveMove t a = { t with
       actions := (followers t.conns a.obj).foldl
-        (fun acts f => modifyConn acts f.1 f.2.1 (some f.2.2) (a.type == .shapeMove)) t.actions
+        (fun acts f => modifyConn acts f.1 f.2.1 (some f.2.2) true) t.actions
       conns := detachAnchor t.conns a.obj
       obst := t.obst.map (fun x => if x.id == a.obj then { x with active := false } else x) } := by
-  have hcond : (!t.consolidate && !(followers t.conns a.obj).isEmpty) = false := by
-    cases hc : t.consolidate
-    · simp [hsafe hc]
-    · simp
   unfold procRemoveMove
   rw [if_neg (by simp [hnr]), if_pos hm, if_neg (by simp [ho])]
-  simp only [hcond, Bool.false_eq_true, ↓reduceIte]
 
 theorem procRemoveMove_other {t : St} {a : Action} (hnr : isRemove a.type = false)
     (hm : isMove a.type = false) : procRemoveMove t a = t := by
@@ -151,7 +113,6 @@ structure P1 (Keep : Id → Prop) (t : St) (rest : List Action) : Prop where
   k2 : ∀ b ∈ rest, isMove b.type = true → Keep b.obj
   keep : ∀ o, Keep o → o ∈ oids t
   acts : CActsOk (· ∈ cids t) Keep t.actions
-  rs : t.consolidate = false → RSafe t rest
 
 theorem isObstT_of_remove {t : AType} (h : isRemove t = true) : isObstT t = true := by
   simp [isObstT, h]
@@ -168,7 +129,7 @@ theorem p1_step {Keep : Id → Prop} {t : St} {b : Action} {rest : List Action}
     (h : P1 Keep t (b :: rest)) :
     P1 Keep (procRemoveMove t b) rest ∧ (procRemoveMove t b).faults = t.faults ∧
       cids (procRemoveMove t b) = cids t := by
-  obtain ⟨h1, h2, h3, h4, h5, h6, h7⟩ := h
+  obtain ⟨h1, h2, h3, h4, h5, h6⟩ := h
   rw [List.pairwise_cons] at h2
   have h1' : ∀ c ∈ rest, (isRemove c.type = true ∨ isMove c.type = true) → c.obj ∈ oids t :=
     fun c hc => h1 c (List.mem_cons_of_mem _ hc)
@@ -178,13 +139,10 @@ theorem p1_step {Keep : Id → Prop} {t : St} {b : Action} {rest : List Action}
   · cases hm : isMove b.type
     · -- neither
       rw [procRemoveMove_other hr hm]
-      refine ⟨⟨h1', h2.2, h3', h4', h5, h6, ?_⟩, rfl, rfl⟩
-      intro hc c hcm; exact h7 hc c (List.mem_cons_of_mem _ hcm)
+      exact ⟨⟨h1', h2.2, h3', h4', h5, h6⟩, rfl, rfl⟩
     · -- move
       have ho : t.hasObst b.obj = true := hasObst_iff.2 (h1 b List.mem_cons_self (Or.inr hm))
-      have hsafe : t.consolidate = false → followers t.conns b.obj = [] := fun hc =>
-        followers_eq_nil ((h7 hc b List.mem_cons_self).2 hm)
-      rw [procRemoveMove_move hr hm ho hsafe]
+      rw [procRemoveMove_move hr hm ho]
       have eo : ∀ X : St, X.obst = t.obst.map (fun x => if x.id == b.obj then { x with active := false } else x) →
           oids X = oids t := by
         intro X hX
@@ -193,7 +151,7 @@ theorem p1_step {Keep : Id → Prop} {t : St} {b : Action} {rest : List Action}
         intro x _; simp only [Function.comp]; split <;> rfl
       have ec : ∀ X : St, X.conns = detachAnchor t.conns b.obj → cids X = cids t := by
         intro X hX; simp only [cids, hX]; exact cids_detachAnchor _ _
-      refine ⟨⟨?_, h2.2, h3', h4', ?_, ?_, ?_⟩, rfl, ec _ rfl⟩
+      refine ⟨⟨?_, h2.2, h3', h4', ?_, ?_⟩, rfl, ec _ rfl⟩
       · intro c hc hx; rw [eo _ rfl]; exact h1' c hc hx
       · intro o ho'; rw [eo _ rfl]; exact h5 o ho'
       · rw [ec _ rfl]
@@ -204,21 +162,16 @@ theorem p1_step {Keep : Id → Prop} {t : St} {b : Action} {rest : List Action}
         intro an han
         cases han
         rw [hf2]; exact h4 b List.mem_cons_self hm
-      · intro hc c hcm
-        have := h7 hc c (List.mem_cons_of_mem _ hcm)
-        exact ⟨this.1, fun hmv => attachedTo_detachAnchor _ (this.2 hmv)⟩
   · -- remove
     have ho : t.hasObst b.obj = true := hasObst_iff.2 (h1 b List.mem_cons_self (Or.inl hr))
-    have hsafe : t.consolidate = false → t.pinsOf b.obj = [] := fun hc =>
-      (h7 hc b List.mem_cons_self).1 hr
-    rw [procRemoveMove_remove hr ho hsafe]
+    rw [procRemoveMove_remove hr ho]
     have eo : ∀ X : St, X.obst = t.obst.filter (fun x => x.id != b.obj) →
         oids X = (oids t).filter (· != b.obj) := by
       intro X hX; rw [← oids_freeObstacle]; simp only [oids, hX, St.freeObstacle]
     have ec : ∀ X : St, X.conns = detachAnchor t.conns b.obj → cids X = cids t := by
       intro X hX; simp only [cids, hX]; exact cids_detachAnchor _ _
     dsimp only [St.freeObstacle]
-    refine ⟨⟨?_, h2.2, h3', h4', ?_, ?_, ?_⟩, rfl, ec _ rfl⟩
+    refine ⟨⟨?_, h2.2, h3', h4', ?_, ?_⟩, rfl, ec _ rfl⟩
     · intro c hc hx
       rw [eo _ rfl, List.mem_filter]
       refine ⟨h1' c hc hx, ?_⟩
@@ -239,12 +192,6 @@ theorem p1_step {Keep : Id → Prop} {t : St} {b : Action} {rest : List Action}
       rcases ha with ha | ⟨p, _, rfl⟩
       · exact h6 a ha
       · intro x; cases x
-    · intro hc c hcm
-      have := h7 hc c (List.mem_cons_of_mem _ hcm)
-      refine ⟨fun hrm => ?_, fun hmv => attachedTo_detachAnchor _ (this.2 hmv)⟩
-      have h0 := this.1 hrm
-      simp only [St.pinsOf, List.filter_eq_nil_iff, List.mem_filter] at h0 ⊢
-      intro p hp; exact h0 p hp.1
 
 theorem p1_fold {Keep : Id → Prop} (rest : List Action) (t : St) (h : P1 Keep t rest) :
     (rest.foldl procRemoveMove t).faults = t.faults ∧
@@ -332,16 +279,22 @@ theorem procConnChange_ok {t : St} {a : Action}
   · exact ⟨rfl, rfl, rfl⟩
 
 theorem p3_fold (l : List Action) (t : St) (h : CActsOk (· ∈ cids t) (· ∈ oids t) l) :
-    (l.foldl procConnChange t).faults = t.faults := by
+    (l.foldl procConnChange t).faults = t.faults ∧ oids (l.foldl procConnChange t) = oids t ∧
+      cids (l.foldl procConnChange t) = cids t := by
   induction l generalizing t with
-  | nil => rfl
+  | nil => exact ⟨rfl, rfl, rfl⟩
   | cons a l ih =>
     obtain ⟨a1, a2, a3⟩ := procConnChange_ok (h a List.mem_cons_self)
-    rw [List.foldl_cons, ih (procConnChange t a) (by
-      rw [a2, a3]; exact fun b hb => h b (List.mem_cons_of_mem _ hb)), a1]
+    obtain ⟨b1, b2, b3⟩ := ih (procConnChange t a) (by
+      rw [a2, a3]; exact fun b hb => h b (List.mem_cons_of_mem _ hb))
+    exact ⟨b1.trans a1, b2.trans a2, b3.trans a3⟩
 
+/-- the three passes of `Router::processActions` on a well-formed queue — whatever the transaction
+    mode —: no fault, no connector is lost, and every obstacle in `Keep` survives -/
 theorem processActions_faults {s : St} (Keep : Id → Prop) (h : P1 Keep s s.actions)
-    (hk : ∀ b ∈ s.actions, isAdd b.type = true → Keep b.obj) : s.processActions.faults = s.faults := by
+    (hk : ∀ b ∈ s.actions, isAdd b.type = true → Keep b.obj) :
+    s.processActions.faults = s.faults ∧ cids s.processActions = cids s ∧
+      ∀ o, Keep o → o ∈ oids s.processActions := by
   obtain ⟨a1, a2, a3, a4⟩ := p1_fold s.actions s h
   have hmid : ∀ b ∈ s.actions, (isAdd b.type || isMove b.type) = true →
       b.obj ∈ oids (s.actions.foldl procRemoveMove s) := by
@@ -351,19 +304,31 @@ theorem processActions_faults {s : St} (Keep : Id → Prop) (h : P1 Keep s s.act
     · exact a2 _ (hk b hb hx)
     · exact a2 _ (h.k2 b hb hx)
   obtain ⟨b1, b2, b3, b4⟩ := p2_fold s.actions _ hmid
+  have hc3 : CActsOk (· ∈ cids (s.actions.foldl procAddMove (s.actions.foldl procRemoveMove s)))
+      (· ∈ oids (s.actions.foldl procAddMove (s.actions.foldl procRemoveMove s)))
+      (s.actions.foldl procAddMove (s.actions.foldl procRemoveMove s)).actions := by
+    rw [b4]
+    intro a ha hc
+    obtain ⟨c1, c2⟩ := a4 a ha hc
+    refine ⟨?_, ?_⟩
+    · show a.obj ∈ cids _
+      simp only [cids] at a3 c1 ⊢
+      rw [b3, a3]; exact c1
+    · intro u hu an han
+      show an.obj ∈ oids _
+      rw [b2]; exact a2 _ (c2 u hu an han)
+  obtain ⟨c1, c2, c3⟩ := p3_fold _ _ hc3
   unfold St.processActions
-  show (List.foldl procConnChange _ _).faults = _
-  rw [p3_fold, b1, a1]
-  rw [b4]
-  intro a ha hc
-  obtain ⟨c1, c2⟩ := a4 a ha hc
-  refine ⟨?_, ?_⟩
-  · show a.obj ∈ cids _
-    simp only [cids] at a3 c1 ⊢
-    rw [b3, a3]; exact c1
-  · intro u hu an han
-    show an.obj ∈ oids _
-    rw [b2]; exact a2 _ (c2 u hu an han)
+  refine ⟨?_, ?_, ?_⟩
+  · show (List.foldl procConnChange _ _).faults = _
+    rw [c1, b1, a1]
+  · show cids (List.foldl procConnChange _ _) = _
+    rw [c3]
+    simp only [cids] at a3 ⊢
+    rw [b3, a3]
+  · intro o ho
+    show o ∈ oids (List.foldl procConnChange _ _)
+    rw [c2, b2]; exact a2 o ho
 
 
 /-! ### the queue invariant of strictly legal histories -/
@@ -381,7 +346,6 @@ structure QOk (g : List Id) (s : St) : Prop where
 /-- what holds between the operations of a strictly legal history -/
 structure FOk (g : List Id) (s : St) : Prop where
   qok : QOk g s
-  off : s.consolidate = false → s.actions = []
   nofault : s.faults = []
 
 theorem RS.symm {a b : Action} (h : RS a b) : RS b a := by
@@ -419,7 +383,7 @@ theorem not_remove_of_add {t : AType} (h : isAdd t = true) : isRemove t = false 
   cases t <;> simp_all [isAdd, isRemove]
 
 /-- the hypotheses of `processActions_faults` from the queue invariant -/
-theorem qok_p1 {g : List Id} {s : St} (h : QOk g s) (hrs : s.consolidate = false → RSafe s s.actions) :
+theorem qok_p1 {g : List Id} {s : St} (h : QOk g s) :
     P1 (fun o => o ∈ oids s ∧ ∀ a ∈ s.actions, isRemove a.type = true → a.obj ≠ o) s s.actions ∧
     (∀ b ∈ s.actions, isAdd b.type = true →
       (fun o => o ∈ oids s ∧ ∀ a ∈ s.actions, isRemove a.type = true → a.obj ≠ o) b.obj) := by
@@ -431,7 +395,7 @@ theorem qok_p1 {g : List Id} {s : St} (h : QOk g s) (hrs : s.consolidate = false
     intro a ha har
     have hne : a ≠ b := by rintro rfl; rw [har] at hbr; cases hbr
     exact pairwise_mem hpw ha hb hne (Or.inl har) (isObstT_of_remove har) hbt
-  refine ⟨⟨?_, hpw, ?_, ?_, fun o ho => ho.1, ?_, hrs⟩, ?_⟩
+  refine ⟨⟨?_, hpw, ?_, ?_, fun o ho => ho.1, ?_⟩, ?_⟩
   · intro b hb hx
     rcases hx with hx | hx
     · exact nd_obstT hnd hb (isObstT_of_remove hx)
@@ -445,13 +409,26 @@ theorem qok_p1 {g : List Id} {s : St} (h : QOk g s) (hrs : s.consolidate = false
     exact ⟨hasObst_iff.1 ((h3 hc).2 u hu an han), fun b hb hbr => hqc a ha u hu an han b hb hbr⟩
   · intro b hb ha; exact key b hb (isObstT_of_add ha) (not_remove_of_add ha)
 
-theorem faults_processTransaction {g : List Id} {s : St} (h : QOk g s)
-    (hrs : s.consolidate = false → RSafe s s.actions) : s.processTransaction.faults = s.faults := by
+theorem cids_reroute (t : St) : cids (reroute t) = cids t := by
+  simp only [cids, reroute, List.map_map]
+  apply List.map_congr_left
+  intro x _; simp only [Function.comp]; split <;> rfl
+
+/-- a transaction on a well-formed queue (transactions on or off): no fault, the connectors stay,
+    and so does every obstacle without a queued removal -/
+theorem processTransaction_spec {g : List Id} {s : St} (h : QOk g s) :
+    s.processTransaction.faults = s.faults ∧ cids s.processTransaction = cids s ∧
+      ∀ o ∈ oids s, (∀ a ∈ s.actions, isRemove a.type = true → a.obj ≠ o) →
+        o ∈ oids s.processTransaction := by
   unfold St.processTransaction
   split
-  · rfl
-  · obtain ⟨h1, h2⟩ := qok_p1 h hrs
-    exact processActions_faults _ h1 h2
+  · exact ⟨rfl, rfl, fun o ho _ => ho⟩
+  · obtain ⟨h1, h2⟩ := qok_p1 h
+    obtain ⟨a1, a2, a3⟩ := processActions_faults _ h1 h2
+    exact ⟨a1, (cids_reroute _).trans a2, fun o ho hno => a3 o ⟨ho, hno⟩⟩
+
+theorem faults_processTransaction {g : List Id} {s : St} (h : QOk g s) :
+    s.processTransaction.faults = s.faults := (processTransaction_spec h).1
 
 theorem qok_nil {g : List Id} {s : St} (hc : Core g s) (ha : s.actions = []) : QOk g s := by
   refine ⟨hc, nd_of_nil ha, ?_, ?_⟩
@@ -461,17 +438,23 @@ theorem qok_nil {g : List Id} {s : St} (hc : Core g s) (ha : s.actions = []) : Q
 theorem qok_processTransaction {g : List Id} {s : St} (h : QOk g s) : QOk g s.processTransaction :=
   qok_nil (core_processTransaction h.core) (actions_processTransaction s)
 
+theorem maybeProcess_eq_off {X : St} (hc : X.consolidate = false) : X.maybeProcess = X.processTransaction := by
+  unfold St.maybeProcess; rw [if_neg (by simp [hc])]
+
 /-- the common tail `maybeProcess` of the mutators -/
-theorem finish {g : List Id} {X : St} (h : QOk g X) (hrs : X.consolidate = false → RSafe X X.actions)
-    (hf : X.faults = []) : FOk g X.maybeProcess := by
+theorem finish {g : List Id} {X : St} (h : QOk g X) (hf : X.faults = []) : FOk g X.maybeProcess := by
   cases hc : X.consolidate
-  · have e : X.maybeProcess = X.processTransaction := by
-      unfold St.maybeProcess; rw [if_neg (by simp [hc])]
-    rw [e]
-    exact ⟨qok_processTransaction h, fun _ => actions_processTransaction X,
-      (faults_processTransaction h hrs).trans hf⟩
+  · rw [maybeProcess_eq_off hc]
+    exact ⟨qok_processTransaction h, (faults_processTransaction h).trans hf⟩
   · rw [maybeProcess_on hc]
-    exact ⟨h, fun hh => (by rw [hc] at hh; cases hh), hf⟩
+    exact ⟨h, hf⟩
+
+theorem maybeProcess_spec {g : List Id} {X : St} (h : QOk g X) :
+    cids X.maybeProcess = cids X ∧
+      ∀ o ∈ oids X, (∀ a ∈ X.actions, isRemove a.type = true → a.obj ≠ o) → o ∈ oids X.maybeProcess := by
+  cases hc : X.consolidate
+  · rw [maybeProcess_eq_off hc]; exact (processTransaction_spec h).2
+  · rw [maybeProcess_on hc]; exact ⟨rfl, fun o ho _ => ho⟩
 
 /-- same queue or a sublist of it -/
 theorem qok_sub {g g' : List Id} {s t : St} (h : QOk g s) (hcore : Core g' t) (hnd : NoDanglingAction t)
@@ -541,8 +524,6 @@ theorem mem_modifyConn_ends {acts : List Action} {c : Id} {d : Bool} {e : EndSpe
     · exact Or.inl ⟨a', h, hu⟩
     · rw [List.mem_singleton] at hu; exact Or.inr hu
 
-theorem not_obstT_connChange : isObstT .connChange = false := by decide
-
 theorem pw_modifyConn {acts : List Action} (h : acts.Pairwise RS) (c : Id) (d : Bool) (e : EndSpec)
     (pm : Bool) : (modifyConn acts c d e pm).Pairwise RS := by
   unfold modifyConn
@@ -610,39 +591,12 @@ theorem rs_fresh {g : List Id} {s : St} (h : QOk g s) {id : Id} (hx : id ∉ s.c
   intro a ha _ hobst _
   exact fresh_ne h.core hx (nd_obstT h.nd ha hobst)
 
-theorem rsafe_of_no_rm {t : St} {l : List Action}
-    (h : ∀ b ∈ l, isRemove b.type = false ∧ isMove b.type = false) : RSafe t l := by
-  intro b hb
-  obtain ⟨h1, h2⟩ := h b hb
-  exact ⟨fun x => (by rw [h1] at x; cases x), fun x => (by rw [h2] at x; cases x)⟩
-
-theorem rsafe_enqueue {s : St} (hnil : s.actions = []) (t : AType) (o : Id)
-    (h1 : isRemove t = true → s.pinsOf o = [])
-    (h2 : isMove t = true → ∀ c ∈ s.conns, c.attachedTo o = false) :
-    RSafe (s.enqueue t o) (s.enqueue t o).actions := by
-  have e : s.enqueue t o = { s with actions := [{ type := t, obj := o }] } := by
-    simp [St.enqueue, St.hasAction, hnil]
-  rw [e]
-  intro b hb
-  rw [List.mem_singleton] at hb; subst hb
-  exact ⟨h1, h2⟩
-
-theorem rsafe_modify {s : St} (hnil : s.actions = []) (c : Id) (d : Bool) (e : EndSpec) :
-    RSafe (s.modify c d e) (s.modify c d e).actions := by
-  apply rsafe_of_no_rm
-  intro b hb
-  have : b ∈ modifyConn s.actions c d e false := hb
-  rw [hnil] at this
-  simp only [modifyConn, List.any_nil, Bool.false_eq_true, ↓reduceIte, List.nil_append,
-    List.mem_singleton] at this
-  subst this; exact ⟨rfl, rfl⟩
-
 theorem maybeProcess_actions_sub (X : St) : X.maybeProcess.actions.Sublist X.actions := by
   cases hc : X.consolidate
   · rw [maybeProcess_off hc]; exact List.nil_sublist _
   · rw [maybeProcess_on hc]; exact List.Sublist.refl _
 
-/-! obstacles survive a transaction whose queue holds no obstacle action -/
+/-! the connector pass leaves the obstacles alone -/
 
 theorem obst_applyEnd (t : St) (c : Id) (u : Bool × EndSpec) :
     (applyEnd t c u).obst = t.obst ∧ cids (applyEnd t c u) = cids t := by
@@ -672,49 +626,6 @@ theorem obst_procConnChange (t : St) (a : Action) :
         _ _ ⟨rfl, rfl⟩
   · exact ⟨rfl, rfl⟩
 
-theorem foldl_id {α β : Type} (f : β → α → β) (l : List α) (s : β) (h : ∀ a ∈ l, ∀ s, f s a = s) :
-    l.foldl f s = s := by
-  induction l generalizing s with
-  | nil => rfl
-  | cons a l ih =>
-    rw [List.foldl_cons, h a List.mem_cons_self, ih _ (fun b hb => h b (List.mem_cons_of_mem _ hb))]
-
-theorem procAddMove_other {t : St} {a : Action} (h1 : isAdd a.type = false) (h2 : isMove a.type = false) :
-    procAddMove t a = t := by
-  unfold procAddMove; rw [if_neg (by simp [h1, h2])]
-
-theorem obst_processTransaction {s : St}
-    (h : ∀ a ∈ s.actions, isRemove a.type = false ∧ isMove a.type = false ∧ isAdd a.type = false) :
-    s.processTransaction.obst = s.obst ∧ cids s.processTransaction = cids s := by
-  unfold St.processTransaction
-  split
-  · exact ⟨rfl, rfl⟩
-  · have e1 : s.actions.foldl procRemoveMove s = s :=
-      foldl_id _ _ _ (fun a ha t => procRemoveMove_other (h a ha).1 (h a ha).2.1)
-    have e2 : s.actions.foldl procAddMove s = s :=
-      foldl_id _ _ _ (fun a ha t => procAddMove_other (h a ha).2.2 (h a ha).2.1)
-    have e3 := foldl_inv (fun x => x.obst = s.obst ∧ cids x = cids s) procConnChange
-        (fun x u hx => ⟨(obst_procConnChange x u).1.trans hx.1, (obst_procConnChange x u).2.trans hx.2⟩)
-        s.actions s ⟨rfl, rfl⟩
-    unfold St.processActions
-    dsimp only
-    rw [e1, e2]
-    refine ⟨e3.1, ?_⟩
-    refine Eq.trans ?_ e3.2
-    simp only [cids, reroute, List.map_map]
-    apply List.map_congr_left
-    intro x _; simp only [Function.comp]; split <;> rfl
-
-theorem obst_maybeProcess {X : St}
-    (h : X.consolidate = false →
-      ∀ a ∈ X.actions, isRemove a.type = false ∧ isMove a.type = false ∧ isAdd a.type = false) :
-    X.maybeProcess.obst = X.obst ∧ cids X.maybeProcess = cids X := by
-  cases hc : X.consolidate
-  · have e : X.maybeProcess = X.processTransaction := by
-      unfold St.maybeProcess; rw [if_neg (by simp [hc])]
-    rw [e]; exact obst_processTransaction (h hc)
-  · rw [maybeProcess_on hc]; exact ⟨rfl, rfl⟩
-
 theorem eq_of_nodup_map {α β : Type} {f : α → β} {l : List α} (h : (l.map f).Nodup) {x y : α}
     (hx : x ∈ l) (hy : y ∈ l) (hf : f x = f y) : x = y := by
   induction l with
@@ -742,6 +653,103 @@ theorem shape_not_junction {g : List Id} {s : St} (h : Core g s) {o : Id} (h1 : 
   subst this; rw [hxj] at hyj; cases hyj
 
 
+/-! ### what a transaction that runs in the middle of a mutator (transactions off) leaves -/
+
+/-- every obstacle of `t` is one of `s` (same id, same kind) -/
+def ObstFrom (s t : St) : Prop := ∀ x ∈ t.obst, ∃ y ∈ s.obst, y.id = x.id ∧ y.junction = x.junction
+
+theorem obstFrom_refl (s : St) : ObstFrom s s := fun x hx => ⟨x, hx, rfl, rfl⟩
+
+theorem obstFrom_mapActive {s t : St} (h : ObstFrom s t) (o : Id) (b : Bool) :
+    ∀ x ∈ t.obst.map (fun x => if x.id == o then { x with active := b } else x),
+      ∃ y ∈ s.obst, y.id = x.id ∧ y.junction = x.junction := by
+  intro x hx
+  simp only [List.mem_map] at hx
+  obtain ⟨x0, hx0, rfl⟩ := hx
+  obtain ⟨y, hy, e1, e2⟩ := h x0 hx0
+  refine ⟨y, hy, ?_⟩
+  split <;> exact ⟨e1, e2⟩
+
+theorem obstFrom_procRemoveMove {s t : St} (h : ObstFrom s t) (a : Action) :
+    ObstFrom s (procRemoveMove t a) := by
+  unfold procRemoveMove
+  split
+  · split
+    · exact h
+    · intro x hx
+      simp only [St.freeObstacle, List.mem_filter] at hx
+      exact h x hx.1
+  · split
+    · split
+      · exact h
+      · exact obstFrom_mapActive h _ _
+    · exact h
+
+theorem obstFrom_procAddMove {s t : St} (h : ObstFrom s t) (a : Action) :
+    ObstFrom s (procAddMove t a) := by
+  unfold procAddMove
+  split
+  · split
+    · exact h
+    · exact obstFrom_mapActive h _ _
+  · exact h
+
+theorem obstFrom_procConnChange {s t : St} (h : ObstFrom s t) (a : Action) :
+    ObstFrom s (procConnChange t a) := by
+  intro x hx
+  rw [(obst_procConnChange t a).1] at hx
+  exact h x hx
+
+theorem obstFrom_processTransaction (s : St) : ObstFrom s s.processTransaction := by
+  unfold St.processTransaction
+  split
+  · exact obstFrom_refl s
+  · have h1 := foldl_inv (ObstFrom s) _ (fun t a ht => obstFrom_procRemoveMove ht a) s.actions s
+      (obstFrom_refl s)
+    have h2 := foldl_inv (ObstFrom s) _ (fun t a ht => obstFrom_procAddMove ht a) s.actions _ h1
+    have h3 := foldl_inv (ObstFrom s) _ (fun t a ht => obstFrom_procConnChange ht a)
+      (s.actions.foldl procAddMove (s.actions.foldl procRemoveMove s)).actions _ h2
+    unfold St.processActions
+    exact h3
+
+theorem hasJunction_of_obstFrom {g : List Id} {s t : St} (hc : Core g s) (h : ObstFrom s t) {o : Id}
+    (hj : s.hasJunction o = true) (ho : o ∈ oids t) : t.hasJunction o = true := by
+  simp only [oids, List.mem_map] at ho
+  obtain ⟨x, hx, rfl⟩ := ho
+  obtain ⟨y, hy, e1, e2⟩ := h x hx
+  simp only [St.hasJunction, List.any_eq_true, Bool.and_eq_true, beq_iff_eq] at hj ⊢
+  obtain ⟨z, hz, hz1, hz2⟩ := hj
+  have hn := hc.ids.nodupAlloc
+  simp only [List.nodup_append] at hn
+  have hno : (s.obst.map (·.id)).Nodup := hn.1.1.1
+  have := eq_of_nodup_map hno hy hz (e1.trans hz1.symm)
+  subst this
+  exact ⟨x, hx, rfl, e2 ▸ hz2⟩
+
+/-- a junction without a queued removal is still a junction after the mutator's `processTransaction` -/
+theorem hasJunction_maybeProcess {g : List Id} {X : St} (h : QOk g X) {o : Id}
+    (hj : X.hasJunction o = true)
+    (hno : ∀ a ∈ X.actions, isRemove a.type = true → a.obj ≠ o) : X.maybeProcess.hasJunction o = true := by
+  have hmem := (maybeProcess_spec h).2 o (hasJunction_obst hj) hno
+  cases hc : X.consolidate
+  · rw [maybeProcess_eq_off hc] at hmem ⊢
+    exact hasJunction_of_obstFrom h.core (obstFrom_processTransaction X) hj hmem
+  · rw [maybeProcess_on hc]; exact hj
+
+/-- a user `ConnEnd` that was acceptable before the mutator's `processTransaction` still is after it -/
+theorem specOk_maybeProcess {g : List Id} {X : St} (h : QOk g X) {e : EndSpec}
+    (hs : specOk X e = true) : specOk X.maybeProcess e = true := by
+  cases hc : X.consolidate
+  · cases e with
+    | none => rfl
+    | some an =>
+      have h1 := hasObst_iff.1 (specOk_obst hs an rfl)
+      have h2 := specOk_noRemove hs an rfl
+      have h3 := hasObst_iff.2 ((maybeProcess_spec h).2 an.obj h1 h2)
+      simp [specOk, St.hasAction, maybeProcess_off hc, h3]
+  · rw [maybeProcess_on hc]; exact hs
+
+
 /-! ### the operations preserve `FOk` under strict legality -/
 
 theorem mem_enqueue {s : St} {t : AType} {o : Id} {a : Action} (h : a ∈ (s.enqueue t o).actions) :
@@ -753,10 +761,6 @@ theorem mem_enqueue {s : St} {t : AType} {o : Id} {a : Action} (h : a ∈ (s.enq
 
 theorem obst_enqueue (s : St) (t : AType) (o : Id) : (s.enqueue t o).obst = s.obst := by
   unfold St.enqueue; split <;> rfl
-theorem conns_enqueue (s : St) (t : AType) (o : Id) : (s.enqueue t o).conns = s.conns := by
-  unfold St.enqueue; split <;> rfl
-theorem pins_enqueue (s : St) (t : AType) (o : Id) : (s.enqueue t o).pins = s.pins := by
-  unfold St.enqueue; split <;> rfl
 
 /-- queueing a ConnectionPinChange entry never matters -/
 theorem qok_enqueue_pin {g : List Id} {s : St} (h : QOk g s) (p : Id) : QOk g (s.enqueue .pinChange p) := by
@@ -766,28 +770,21 @@ theorem qok_enqueue_pin {g : List Id} {s : St} (h : QOk g s) (p : Id) : QOk g (s
   · intro a _ _ _ h3; exact absurd (show isObstT .pinChange = true from h3) (by decide)
   · intro x; exact absurd x (by decide)
 
-theorem rsafe_enqueue_pin {s : St} (hnil : s.actions = []) (p : Id) :
-    RSafe (s.enqueue .pinChange p) (s.enqueue .pinChange p).actions :=
-  rsafe_enqueue hnil _ _ (fun x => absurd x (by decide)) (fun x => absurd x (by decide))
-
 theorem fok_newShape {s : St} (h : FOk [] s) {id : Id} (hx : id ∉ s.created) :
     FOk [] ((s.addObst id false false).enqueue .shapeAdd id).maybeProcess := by
-  obtain ⟨hq, hoff, hnf⟩ := h
+  obtain ⟨hq, hnf⟩ := h
   have hA : QOk [] (s.addObst id false false) :=
     qok_sub hq (core_addObst hq.core _ _ hx) (nd_addObst hq.nd _ _ _) (List.Sublist.refl _)
-  refine finish ?_ ?_ (by simpa using hnf)
-  · refine qok_enqueue hA .shapeAdd id ?_ ?_ (by decide) (rs_fresh hq hx _) (fun x => absurd x (by decide))
-    · intro _; simp [St.hasShape, St.addObst, List.any_append]
-    · intro x; exact absurd x (not_junctionAct_of (by decide) (by decide) (by decide))
-  · intro hc
-    exact rsafe_enqueue (s := s.addObst id false false) (hoff (by simpa using hc)) .shapeAdd id
-      (fun x => absurd x (by decide)) (fun x => absurd x (by decide))
+  refine finish ?_ (by simpa using hnf)
+  refine qok_enqueue hA .shapeAdd id ?_ ?_ (by decide) (rs_fresh hq hx _) (fun x => absurd x (by decide))
+  · intro _; simp [St.hasShape, St.addObst, List.any_append]
+  · intro x; exact absurd x (not_junctionAct_of (by decide) (by decide) (by decide))
 
 theorem fok_newJunction {s : St} (h : FOk [] s) {id pin : Id} (hx : id ∉ s.created)
     (hp : pin ∉ s.created) (hne : id ≠ pin) :
     FOk [] (((((s.addObst id true false).addPin pin id centreCls).enqueue .pinChange pin).maybeProcess).enqueue
       .junctionAdd id).maybeProcess := by
-  obtain ⟨hq, hoff, hnf⟩ := h
+  obtain ⟨hq, hnf⟩ := h
   have hcA : Core [] ((s.addObst id true false).addPin pin id centreCls) := by
     refine core_addPin (core_addObst hq.core true false hx) _ ?_ ?_
     · simp only [St.addObst, List.mem_append, List.mem_singleton]; intro hh
@@ -798,44 +795,38 @@ theorem fok_newJunction {s : St} (h : FOk [] s) {id pin : Id} (hx : id ∉ s.cre
   have hA : QOk [] ((s.addObst id true false).addPin pin id centreCls) :=
     qok_sub hq hcA (nd_addPin (nd_addObst hq.nd _ _ _) _ _ _) (List.Sublist.refl _)
   have hX1 := qok_enqueue_pin hA pin
-  have F1 := finish hX1 (fun hc => rsafe_enqueue_pin
-    (s := (s.addObst id true false).addPin pin id centreCls) (hoff (by simpa using hc)) pin) (by simpa using hnf)
-  generalize hX : (((s.addObst id true false).addPin pin id centreCls).enqueue .pinChange pin) = X1 at hX1 F1 ⊢
+  have F1 := finish hX1 (by simpa using hnf)
+  have hj1 : (((s.addObst id true false).addPin pin id centreCls).enqueue .pinChange pin).hasJunction id = true := by
+    simp [St.hasJunction, obst_enqueue, St.addObst, St.addPin, List.any_append]
+  generalize hX : (((s.addObst id true false).addPin pin id centreCls).enqueue .pinChange pin) = X1 at hX1 F1 hj1 ⊢
   have hX1acts : ∀ a ∈ X1.actions, a ∈ s.actions ∨ a = { type := .pinChange, obj := pin } := by
     intro a ha; rw [← hX] at ha
     exact mem_enqueue (s := (s.addObst id true false).addPin pin id centreCls) ha
-  have hX1cons : X1.consolidate = s.consolidate := by rw [← hX]; simp
-  have hX1obst : X1.obst = s.obst ++ [{ id := id, junction := true, active := false }] := by
-    rw [← hX, obst_enqueue]; rfl
-  have hobst : X1.maybeProcess.obst = X1.obst := by
-    refine (obst_maybeProcess ?_).1
-    intro hc a ha
-    rcases hX1acts a ha with ha | rfl
-    · rw [hoff (hX1cons ▸ hc)] at ha; cases ha
-    · exact ⟨rfl, rfl, rfl⟩
-  refine finish ?_ ?_ (by simpa using F1.nofault)
-  · refine qok_enqueue F1.qok .junctionAdd id ?_ ?_ (by decide) ?_ (fun x => absurd x (by decide))
-    · intro x; exact absurd x (not_shapeAct_of (by decide) (by decide) (by decide))
-    · intro _
-      simp [St.hasJunction, hobst, hX1obst, List.any_append]
-    · intro a ha _ hobstT _
-      have ha1 := (maybeProcess_actions_sub X1).subset ha
-      rcases hX1acts a ha1 with ha2 | rfl
-      · exact fresh_ne hq.core hx (nd_obstT hq.nd ha2 hobstT)
-      · exact absurd (show isObstT .pinChange = true from hobstT) (by decide)
-  · intro hc
-    exact rsafe_enqueue (F1.off (by simpa using hc)) .junctionAdd id
-      (fun x => absurd x (by decide)) (fun x => absurd x (by decide))
+  -- the queue (possibly non-empty, processed right here when transactions are off) holds no
+  -- removal of the new junction
+  have hno : ∀ a ∈ X1.actions, isRemove a.type = true → a.obj ≠ id := by
+    intro a ha hr
+    rcases hX1acts a ha with ha2 | rfl
+    · exact fresh_ne hq.core hx (nd_obstT hq.nd ha2 (isObstT_of_remove hr))
+    · exact absurd (show isRemove .pinChange = true from hr) (by decide)
+  have hj := hasJunction_maybeProcess hX1 hj1 hno
+  refine finish ?_ (by simpa using F1.nofault)
+  refine qok_enqueue F1.qok .junctionAdd id ?_ ?_ (by decide) ?_ (fun x => absurd x (by decide))
+  · intro x; exact absurd x (not_shapeAct_of (by decide) (by decide) (by decide))
+  · intro _; exact hj
+  · intro a ha _ hobstT _
+    have ha1 := (maybeProcess_actions_sub X1).subset ha
+    rcases hX1acts a ha1 with ha2 | rfl
+    · exact fresh_ne hq.core hx (nd_obstT hq.nd ha2 hobstT)
+    · exact absurd (show isObstT .pinChange = true from hobstT) (by decide)
 
 theorem fok_newPin {s : St} (h : FOk [] s) {pin shape : Id} (cls : Nat) (hx : pin ∉ s.created)
     (hs : s.hasShape shape = true) :
     FOk [] ((s.addPin pin shape cls).enqueue .pinChange pin).maybeProcess := by
-  obtain ⟨hq, hoff, hnf⟩ := h
+  obtain ⟨hq, hnf⟩ := h
   have hA : QOk [] (s.addPin pin shape cls) :=
     qok_sub hq (core_addPin hq.core _ hx (hasShape_obst hs)) (nd_addPin hq.nd _ _ _) (List.Sublist.refl _)
-  exact finish (qok_enqueue_pin hA pin)
-    (fun hc => rsafe_enqueue_pin (s := s.addPin pin shape cls) (hoff (by simpa using hc)) pin)
-    (by simpa using hnf)
+  exact finish (qok_enqueue_pin hA pin) (by simpa using hnf)
 
 
 theorem hasObst_congr {s t : St} (h : t.obst = s.obst) (o : Id) : t.hasObst o = s.hasObst o := by
@@ -862,36 +853,32 @@ theorem specOk_transfer {s t : St} {e : EndSpec} (hobst : t.obst = s.obst)
 
 theorem fok_modify {g : List Id} {s : St} (h : FOk g s) {c : Id} (d : Bool) {e : EndSpec}
     (hc : s.hasConn c = true) (hspec : specOk s e = true) : FOk g (s.modify c d e).maybeProcess := by
-  obtain ⟨hq, hoff, hnf⟩ := h
-  exact finish (qok_modify hq d hc hspec) (fun hcons => rsafe_modify (hoff hcons) c d e) hnf
+  obtain ⟨hq, hnf⟩ := h
+  exact finish (qok_modify hq d hc hspec) hnf
 
 theorem fok_newConn {s : St} (h : FOk [] s) {id : Id} {src dst : EndSpec} (hx : id ∉ s.created)
     (hsrc : specOk s src = true) (hdst : specOk s dst = true) :
     FOk [] ((((s.addConn id false).modify id false src).maybeProcess).modify id true dst).maybeProcess := by
-  obtain ⟨hq, hoff, hnf⟩ := h
-  have hA : FOk [] (s.addConn id false) :=
-    ⟨qok_sub hq (core_addConn hq.core _ hx) (nd_addConn hq.nd _ _) (List.Sublist.refl _), hoff, hnf⟩
+  obtain ⟨hq, hnf⟩ := h
+  have hA : QOk [] (s.addConn id false) :=
+    qok_sub hq (core_addConn hq.core _ hx) (nd_addConn hq.nd _ _) (List.Sublist.refl _)
   have hcA : (s.addConn id false).hasConn id = true := by
     simp [St.hasConn, St.addConn, List.any_append]
-  have F1 := fok_modify hA false hcA (e := src) hsrc
-  -- what the first (possible) transaction leaves
-  have hkeep := obst_maybeProcess (X := (s.addConn id false).modify id false src) (by
-    intro hc a ha
-    have : a ∈ modifyConn s.actions id false src false := ha
-    rw [hoff hc] at this
-    simp only [modifyConn, List.any_nil, Bool.false_eq_true, ↓reduceIte, List.nil_append,
-      List.mem_singleton] at this
-    subst this; exact ⟨rfl, rfl, rfl⟩)
-  have hsub := maybeProcess_actions_sub ((s.addConn id false).modify id false src)
-  generalize ((s.addConn id false).modify id false src).maybeProcess = X1' at F1 hkeep hsub ⊢
-  refine fok_modify F1 true ?_ ?_
-  · rw [hasConn_iff, hkeep.2]; exact hasConn_iff.1 hcA
-  · refine specOk_transfer (s := s) hkeep.1 ?_ hdst
+  have hQ1 : QOk [] ((s.addConn id false).modify id false src) := qok_modify hA false hcA (e := src) hsrc
+  have F1 : FOk [] ((s.addConn id false).modify id false src).maybeProcess := finish hQ1 hnf
+  -- `dst` is still acceptable when the second modifyConnector runs: with transactions off the first
+  -- one has processed the whole queue, which held no removal of `dst`'s obstacle
+  have hspec1 : specOk ((s.addConn id false).modify id false src) dst = true := by
+    refine specOk_transfer (s := s) rfl ?_ hdst
     intro b hb hbr
-    have hb1 : b ∈ modifyConn s.actions id false src false := hsub.subset hb
+    have hb1 : b ∈ modifyConn s.actions id false src false := hb
     rcases mem_modifyConn_key hb1 with hk | hk
     · exact hk
     · rw [hk] at hbr; exact absurd hbr (by decide)
+  have hspec2 := specOk_maybeProcess hQ1 hspec1
+  have hc2 : ((s.addConn id false).modify id false src).maybeProcess.hasConn id = true := by
+    rw [hasConn_iff, (maybeProcess_spec hQ1).1]; exact hasConn_iff.1 hcA
+  exact fok_modify F1 true hc2 hspec2
 
 theorem hasAction_false {s : St} {t : AType} {o : Id} (h : s.hasAction t o = false) {a : Action}
     (ha : a ∈ s.actions) (e : a.obj = o) : a.type ≠ t := by
@@ -935,10 +922,9 @@ theorem fok_deleteObstacleOp {s : St} (h : FOk [] s) (o : Id) (j : Bool)
     (hhas : (if j then s.hasJunction o else s.hasShape o) = true)
     (hpend : s.pendingRemove o = false)
     (hadd : s.hasAction (if j then .junctionAdd else .shapeAdd) o = false)
-    (hment : s.actions.any (mentions · o) = false)
-    (hpins : s.consolidate = false → s.pinsOf o = []) :
+    (hment : s.actions.any (mentions · o) = false) :
     FOk [] (deleteObstacleOp s o j) := by
-  obtain ⟨hq, hoff, hnf⟩ := h
+  obtain ⟨hq, hnf⟩ := h
   have hD : QOk [] (s.dropAction (if j then .junctionMove else .shapeMove) o) :=
     qok_sub hq (core_dropAction hq.core _ _) (nd_dropAction hq.nd _ _) List.filter_sublist
   have hrs : ∀ a ∈ (s.dropAction (if j then .junctionMove else .shapeMove) o).actions,
@@ -959,27 +945,16 @@ theorem fok_deleteObstacleOp {s : St} (h : FOk [] s) (o : Id) (j : Bool)
   unfold deleteObstacleOp
   cases j <;> simp only [Bool.false_eq_true, ↓reduceIte] at hhas hadd hD hrs hqc ⊢ <;>
   · rw [if_neg (by simp [hhas]), if_neg (by simp [hadd])]
-    refine finish (qok_enqueue hD _ _ ?_ ?_ (by decide) hrs (fun _ => hqc)) ?_ (by simpa using hnf)
+    refine finish (qok_enqueue hD _ _ ?_ ?_ (by decide) hrs (fun _ => hqc)) (by simpa using hnf)
     · intro x; first | exact hhas | exact absurd x (not_shapeAct_of (by decide) (by decide) (by decide))
     · intro x; first | exact hhas | exact absurd x (not_junctionAct_of (by decide) (by decide) (by decide))
-    · intro hc
-      have hc' : s.consolidate = false := by simpa using hc
-      refine rsafe_enqueue (s := s.dropAction _ o) (by simp [St.dropAction, hoff hc']) _ _
-        (fun _ => hpins hc') (fun x => absurd x (by decide))
 
-
-theorem attached_of_count {s : St} {o : Id} (h : s.attachedCount o = 0) :
-    ∀ c ∈ s.conns, c.attachedTo o = false := by
-  intro c hc
-  simp only [St.attachedCount, List.length_eq_zero_iff, List.filter_eq_nil_iff] at h
-  simpa using h c hc
 
 theorem fok_moveObstacleOp {s : St} (h : FOk [] s) (o : Id) (j : Bool)
     (hhas : (if j then s.hasJunction o else s.hasShape o) = true)
-    (hpend : s.pendingRemove o = false)
-    (hatt : s.consolidate = false → s.attachedCount o = 0) :
+    (hpend : s.pendingRemove o = false) :
     FOk [] (moveObstacleOp s o j) := by
-  obtain ⟨hq, hoff, hnf⟩ := h
+  obtain ⟨hq, hnf⟩ := h
   have hrs : ∀ a ∈ s.actions, RS a { type := (if j then AType.junctionMove else .shapeMove), obj := o } := by
     intro a ha hr _ _ e0
     have e : a.obj = o := e0
@@ -996,48 +971,33 @@ theorem fok_moveObstacleOp {s : St} (h : FOk [] s) (o : Id) (j : Bool)
   cases j <;> simp only [Bool.false_eq_true, ↓reduceIte] at hhas hrs ⊢ <;>
   · rw [if_neg (by simp [hhas])]
     split
-    · exact ⟨hq, hoff, hnf⟩
-    · refine finish (qok_enqueue hq _ _ ?_ ?_ (by decide) hrs (fun x => absurd x (by decide))) ?_
+    · exact ⟨hq, hnf⟩
+    · refine finish (qok_enqueue hq _ _ ?_ ?_ (by decide) hrs (fun x => absurd x (by decide)))
         (by simpa using hnf)
       · intro x; first | exact hhas | exact absurd x (not_shapeAct_of (by decide) (by decide) (by decide))
       · intro x; first | exact hhas | exact absurd x (not_junctionAct_of (by decide) (by decide) (by decide))
-      · intro hc
-        have hc' : s.consolidate = false := by simpa using hc
-        exact rsafe_enqueue (hoff hc') _ _ (fun x => absurd x (by decide))
-          (fun _ => attached_of_count (hatt hc'))
 
 theorem fok_freeConn {s : St} (h : FOk [] s) {c : Id} (hc : s.hasConn c = true) : FOk [] (s.freeConn c) := by
-  obtain ⟨hq, hoff, hnf⟩ := h
-  refine ⟨qok_sub hq (core_freeConn hq.core (hasConn_iff.1 hc)) (nd_freeConn hq.nd c) List.filter_sublist, ?_, hnf⟩
-  intro hcons
-  have := hoff hcons
-  simp [St.freeConn, St.removeFromQueue, this]
+  obtain ⟨hq, hnf⟩ := h
+  exact ⟨qok_sub hq (core_freeConn hq.core (hasConn_iff.1 hc)) (nd_freeConn hq.nd c) List.filter_sublist, hnf⟩
 
 theorem fok_deletePin {s : St} (h : FOk [] s) {pin : Id} (hp : s.hasPin pin = true) :
     FOk [] ((((s.unlinkPin pin).enqueue .pinChange pin).maybeProcess).releasePin pin) := by
-  obtain ⟨hq, hoff, hnf⟩ := h
+  obtain ⟨hq, hnf⟩ := h
   have hU : QOk [pin] (s.unlinkPin pin) :=
     qok_sub hq (core_unlinkPin hq.core (hasPin_iff.1 hp)) (nd_unlinkPin hq.nd pin) (List.Sublist.refl _)
-  have F := finish (qok_enqueue_pin hU pin)
-    (fun hc => rsafe_enqueue_pin (s := s.unlinkPin pin) (hoff (by simpa using hc)) pin) (by simpa using hnf)
-  obtain ⟨fq, foff, fnf⟩ := F
-  exact ⟨qok_sub fq (core_releasePin fq.core) (nd_releasePin fq.nd pin) (List.Sublist.refl _), foff, fnf⟩
+  obtain ⟨fq, fnf⟩ := finish (qok_enqueue_pin hU pin) (by simpa using hnf)
+  exact ⟨qok_sub fq (core_releasePin fq.core) (nd_releasePin fq.nd pin) (List.Sublist.refl _), fnf⟩
 
 theorem fok_processTransaction {s : St} (h : FOk [] s) : FOk [] s.processTransaction := by
-  obtain ⟨hq, hoff, hnf⟩ := h
-  refine ⟨qok_processTransaction hq, fun _ => actions_processTransaction s, ?_⟩
-  rw [faults_processTransaction hq, hnf]
-  intro hc; rw [hoff hc]; intro b hb; cases hb
+  obtain ⟨hq, hnf⟩ := h
+  exact ⟨qok_processTransaction hq, (faults_processTransaction hq).trans hnf⟩
 
-theorem fok_setTransactionUse {s : St} (h : FOk [] s) (b : Bool)
-    (hl : b = true ∨ s.actions = []) : FOk [] { s with consolidate := b } := by
-  obtain ⟨hq, hoff, hnf⟩ := h
-  refine ⟨qok_sub hq (core_congr hq.core rfl rfl rfl rfl rfl) (nd_setConsolidate hq.nd b)
-    (List.Sublist.refl _), ?_, hnf⟩
-  intro hb
-  rcases hl with hl | hl
-  · rw [hl] at hb; cases hb
-  · exact hl
+/-- switching transactions off with work queued is fine: the next mutator processes the whole queue -/
+theorem fok_setTransactionUse {s : St} (h : FOk [] s) (b : Bool) : FOk [] { s with consolidate := b } := by
+  obtain ⟨hq, hnf⟩ := h
+  exact ⟨qok_sub hq (core_congr hq.core rfl rfl rfl rfl rfl) (nd_setConsolidate hq.nd b)
+    (List.Sublist.refl _), hnf⟩
 
 theorem faults_freeConns (l : List Conn) (s : St) :
     (l.foldl (fun s c => s.freeConn c.id) s).faults = s.faults :=
@@ -1049,7 +1009,7 @@ theorem faults_freeObsts (l : List Obst) (s : St) :
 
 theorem fok_deleteRouter {s : St} (h : FOk [] s) (hl : Legal s .deleteRouter = true) :
     FOk [] (step s .deleteRouter) := by
-  obtain ⟨hq, hoff, hnf⟩ := h
+  obtain ⟨hq, hnf⟩ := h
   have hcore := core_step hq.core .deleteRouter (legal_legalDoc hl)
   have hact : (step s .deleteRouter).actions = [] := by
     unfold step; split
@@ -1057,30 +1017,23 @@ theorem fok_deleteRouter {s : St} (h : FOk [] s) (hl : Legal s .deleteRouter = t
       have := (legal_deleteRouter hl).1
       rw [this] at hal; cases hal
     · rfl
-  refine ⟨qok_nil hcore hact, fun _ => hact, ?_⟩
-  have hcond : (!s.consolidate && !s.actions.isEmpty &&
-      s.obst.any (fun o => o.active && !(s.pinsOf o.id).isEmpty)) = false := by
-    simp only [Legal, Bool.and_eq_true, Bool.or_eq_true, List.isEmpty_iff] at hl
-    rcases hl.2.2 with hc | hc
-    · simp [hc]
-    · simp [hc]
+  refine ⟨qok_nil hcore hact, ?_⟩
   unfold step
   rw [if_neg (by simp [(legal_deleteRouter hl).1])]
-  simp only [hcond, Bool.false_eq_true, ↓reduceIte, faults_closeRouter, faults_freeObsts, faults_freeConns]
+  simp only [faults_closeRouter, faults_freeObsts, faults_freeConns]
   exact hnf
 
 theorem fok_rDelJunction {s : St} (h : FOk [] s) {id : Id} (hj : s.hasJunction id = true)
     (hnil : s.actions = []) : FOk [] ((s.freeObstacle id).removeFromQueue id) := by
-  obtain ⟨hq, hoff, hnf⟩ := h
+  obtain ⟨hq, hnf⟩ := h
   have hact : ((s.freeObstacle id).removeFromQueue id).actions = [] := by
     simp [St.removeFromQueue, St.freeObstacle, hnil]
-  exact ⟨qok_nil (core_removeFromQueue (core_freeObstacle hq.core (hasJunction_obst hj)) _) hact,
-    fun _ => hact, hnf⟩
+  exact ⟨qok_nil (core_removeFromQueue (core_freeObstacle hq.core (hasJunction_obst hj)) _) hact, hnf⟩
 
 theorem fok_rNewJunction {s : St} (h : FOk [] s) {id pin : Id} (hx : id ∉ s.created)
     (hp : pin ∉ s.created) (hne : id ≠ pin) :
     FOk [] ((s.addObst id true true).addPin pin id centreCls) := by
-  obtain ⟨hq, hoff, hnf⟩ := h
+  obtain ⟨hq, hnf⟩ := h
   have hcA : Core [] ((s.addObst id true true).addPin pin id centreCls) := by
     refine core_addPin (core_addObst hq.core true true hx) _ ?_ ?_
     · simp only [St.addObst, List.mem_append, List.mem_singleton]; intro hh
@@ -1088,16 +1041,16 @@ theorem fok_rNewJunction {s : St} (h : FOk [] s) {id pin : Id} (hx : id ∉ s.cr
       · exact hp hh
       · exact hne hh.symm
     · simp [oids, St.addObst]
-  exact ⟨qok_sub hq hcA (nd_addPin (nd_addObst hq.nd _ _ _) _ _ _) (List.Sublist.refl _), hoff, hnf⟩
+  exact ⟨qok_sub hq hcA (nd_addPin (nd_addObst hq.nd _ _ _) _ _ _) (List.Sublist.refl _), hnf⟩
 
 theorem fok_rNewConn {s : St} (h : FOk [] s) {id : Id} (hx : id ∉ s.created) :
     FOk [] (s.addConn id true) := by
-  obtain ⟨hq, hoff, hnf⟩ := h
-  exact ⟨qok_sub hq (core_addConn hq.core _ hx) (nd_addConn hq.nd _ _) (List.Sublist.refl _), hoff, hnf⟩
+  obtain ⟨hq, hnf⟩ := h
+  exact ⟨qok_sub hq (core_addConn hq.core _ hx) (nd_addConn hq.nd _ _) (List.Sublist.refl _), hnf⟩
 
 
 theorem fok_init : FOk [] init :=
-  ⟨qok_nil core_init rfl, fun _ => rfl, rfl⟩
+  ⟨qok_nil core_init rfl, rfl⟩
 
 theorem fok_step {s : St} (h : FOk [] s) (op : Op) (hl : Legal s op = true) : FOk [] (step s op) := by
   have hal : s.alive = true := by
@@ -1116,39 +1069,23 @@ theorem fok_step {s : St} (h : FOk [] s) (op : Op) (hl : Legal s op = true) : FO
     unfold step; rw [if_neg (by simp [hal])]
     exact fok_newJunction h (fresh_of_contains hl.2.1.1) (fresh_of_contains hl.2.1.2) (by simpa using hl.2.2)
   | newConn id src dst ctor3 =>
-    simp only [Legal, LegalDoc, Bool.and_eq_true, Bool.or_eq_true, Bool.not_eq_true'] at hl
+    simp only [Legal, LegalDoc, Bool.and_eq_true, Bool.and_true] at hl
     unfold step; rw [if_neg (by simp [hal])]
-    dsimp only
-    rw [if_neg (by
-      rcases hl.2 with h1 | h1
-      · simp [h1]
-      · simp [h1])]
-    exact fok_newConn h (by simpa using hl.1.2.1.1) hl.1.2.1.2 hl.1.2.2
+    exact fok_newConn h (fresh_of_contains hl.2.1.1) hl.2.1.2 hl.2.2
   | newPin pin shape cls =>
-    simp only [Legal, LegalDoc, Bool.and_eq_true, Bool.or_eq_true, Bool.not_eq_true', beq_iff_eq] at hl
+    simp only [Legal, LegalDoc, Bool.and_eq_true, Bool.and_true] at hl
     unfold step; rw [if_neg (by simp [hal])]
     dsimp only
-    rw [if_neg (by simp [hl.1.2.1.2])]
-    have hcond : (!s.consolidate && s.attachedCount shape != 0) = false := by
-      rcases hl.2 with h1 | h1
-      · simp [h1]
-      · simp [h1]
-    simp only [hcond, Bool.false_eq_true, ↓reduceIte]
-    exact fok_newPin h cls (by simpa using hl.1.2.1.1) hl.1.2.1.2
+    rw [if_neg (by simp [hl.2.1.2])]
+    exact fok_newPin h cls (fresh_of_contains hl.2.1.1) hl.2.1.2
   | deleteShape id =>
-    simp only [Legal, LegalDoc, Bool.and_eq_true, Bool.or_eq_true, Bool.not_eq_true', List.isEmpty_iff] at hl
+    simp only [Legal, LegalDoc, Bool.and_eq_true, Bool.not_eq_true'] at hl
     unfold step; rw [if_neg (by simp [hal])]
-    refine fok_deleteObstacleOp h id false hl.1.2.1 hl.1.2.2 hl.2.1.1 hl.2.1.2 ?_
-    intro hc; rcases hl.2.2 with h1 | h1
-    · rw [h1] at hc; cases hc
-    · exact h1
+    exact fok_deleteObstacleOp h id false hl.1.2.1 hl.1.2.2 hl.2.1 hl.2.2
   | deleteJunction id =>
-    simp only [Legal, LegalDoc, Bool.and_eq_true, Bool.or_eq_true, Bool.not_eq_true', List.isEmpty_iff] at hl
+    simp only [Legal, LegalDoc, Bool.and_eq_true, Bool.not_eq_true'] at hl
     unfold step; rw [if_neg (by simp [hal])]
-    refine fok_deleteObstacleOp h id true hl.1.2.1 hl.1.2.2 hl.2.1.1 hl.2.1.2 ?_
-    intro hc; rcases hl.2.2 with h1 | h1
-    · rw [h1] at hc; cases hc
-    · exact h1
+    exact fok_deleteObstacleOp h id true hl.1.2.1 hl.1.2.2 hl.2.1 hl.2.2
   | deleteConn id =>
     simp only [Legal, LegalDoc, Bool.and_eq_true, Bool.and_true] at hl
     unfold step; rw [if_neg (by simp [hal])]
@@ -1165,19 +1102,13 @@ theorem fok_step {s : St} (h : FOk [] s) (op : Op) (hl : Legal s op = true) : FO
     rw [if_neg (by simp [hpin])]
     exact fok_deletePin h hpin
   | moveShape id =>
-    simp only [Legal, LegalDoc, Bool.and_eq_true, Bool.or_eq_true, Bool.not_eq_true', beq_iff_eq] at hl
+    simp only [Legal, LegalDoc, Bool.and_eq_true, Bool.and_true, Bool.not_eq_true'] at hl
     unfold step; rw [if_neg (by simp [hal])]
-    refine fok_moveObstacleOp h id false hl.1.2.1 hl.1.2.2 ?_
-    intro hc; rcases hl.2 with h1 | h1
-    · rw [h1] at hc; cases hc
-    · exact h1
+    exact fok_moveObstacleOp h id false hl.2.1 hl.2.2
   | moveJunction id =>
-    simp only [Legal, LegalDoc, Bool.and_eq_true, Bool.or_eq_true, Bool.not_eq_true', beq_iff_eq] at hl
+    simp only [Legal, LegalDoc, Bool.and_eq_true, Bool.and_true, Bool.not_eq_true'] at hl
     unfold step; rw [if_neg (by simp [hal])]
-    refine fok_moveObstacleOp h id true hl.1.2.1 hl.1.2.2 ?_
-    intro hc; rcases hl.2 with h1 | h1
-    · rw [h1] at hc; cases hc
-    · exact h1
+    exact fok_moveObstacleOp h id true hl.2.1 hl.2.2
   | setEndpoint c isDst e =>
     simp only [Legal, LegalDoc, Bool.and_eq_true, Bool.and_true] at hl
     unfold step; rw [if_neg (by simp [hal])]
@@ -1188,9 +1119,8 @@ theorem fok_step {s : St} (h : FOk [] s) (op : Op) (hl : Legal s op = true) : FO
     unfold step; rw [if_neg (by simp [hal])]
     exact fok_processTransaction h
   | setTransactionUse b =>
-    simp only [Legal, LegalDoc, Bool.and_eq_true, Bool.or_eq_true, List.isEmpty_iff] at hl
     unfold step; rw [if_neg (by simp [hal])]
-    exact fok_setTransactionUse h b hl.2
+    exact fok_setTransactionUse h b
   | rDelConn id =>
     simp only [Legal, LegalDoc, Bool.and_eq_true, Bool.and_true] at hl
     unfold step; rw [if_neg (by simp [hal])]
